@@ -140,7 +140,7 @@ def run(ctx):
     def part_bursts(c):
         scen.run_family(c, [], names=NAMES, allow=(), mc_invariants=[], mc_properties=[], per_shape=0, depth=1, label="c03burst", extra_scenarios=bursts)
 
-    parts = [part_families, part_bursts, regkernel.run, regkernel.run_closing]
+    parts = [part_families, part_bursts, regkernel.run, regkernel.run_closing, regkernel.run_stopping]
     subs = [ctx.child() for _ in parts]
     with ThreadPoolExecutor(max_workers=len(parts)) as ex:
         futs = [ex.submit(fn, c) for fn, c in zip(parts, subs)]
